@@ -454,6 +454,47 @@ Section Proofs.
       + apply IHh. intros x y Hx Hy. apply Hinj; apply in_or_app; right; assumption.
   Qed.
 
+  (* what rcb_core adds to rcb_rec: the stores and the offset; stated once
+     for C03 and C04 *)
+  Lemma rcb_core_asg : forall fuel sched D k its sum bb p0 p,
+    Forall vitem its -> map ix its = seq 0 (length p0) -> its <> [] ->
+    rcb_core fuel sched D k its sum bb p0 = Ok p ->
+    exists asg off,
+      rcb_rec fuel sched D k its 0%N 0%nat sum bb = Ok asg
+      /\ (forall x, In x asg -> (off <= snd x)%N)
+      /\ length p = length p0
+      /\ Permutation (map (fun x => (fst x, (snd x - off)%N)) asg) (combine its p).
+  Proof.
+    intros fuel sched D k its sum bb p0 p Hv Hix Hne H. unfold Rcb.rcb_core in H.
+    destruct (rcb_rec fuel sched D k its 0%N 0%nat sum bb) as [asg|e|s|] eqn:Hrec; cbn [bind] in H; try discriminate.
+    destruct (rcb_rec_spec _ _ _ _ _ _ _ _ _ _ Hv Hrec) as (PL & TL & RL).
+    destruct (scatter C p0 asg) as [p1|e|s|] eqn:Hsc; cbn [bind] in H; try discriminate.
+    destruct (scatter_spec _ _ _ Hsc) as [Hlen Hw].
+    assert (Hnd : NoDup (map (fun x => ix (fst x)) asg)).
+    { rewrite <- (map_map fst ix). eapply Permutation_NoDup; [apply Permutation_sym, Permutation_map, PL|].
+      rewrite Hix. apply seq_NoDup. }
+    specialize (Hw Hnd).
+    destruct p1 as [|v0 vt] eqn:Ep1; [discriminate|]. rewrite <- Ep1 in *.
+    set (off := minN v0 vt) in *.
+    assert (Hp : p = map (fun i => (i - off)%N) p1) by (rewrite Ep1 in *; inversion H; reflexivity).
+    clear H.
+    assert (Hread : map (fun it => nth (ix it) p1 0%N) its = p1).
+    { rewrite <- (map_map ix (fun j => nth j p1 0%N)), Hix, <- Hlen. apply map_nth_seq. }
+    assert (Hget : forall x, In x asg -> nth (ix (fst x)) p1 0%N = snd x).
+    { intros x Hx. apply nth_opt_nth, Hw, Hx. }
+    destruct (minN_spec v0 vt) as [Hoff_in Hoff_le]. fold off in Hoff_in, Hoff_le.
+    rewrite <- Ep1 in Hoff_in, Hoff_le. rewrite Forall_forall in Hoff_le.
+    exists asg, off. split; [reflexivity|]. split; [|split].
+    - intros x Hx. apply Hoff_le. eapply nth_opt_In. apply Hw, Hx.
+    - rewrite Hp, map_length; exact Hlen.
+    - assert (Hc : combine its p = map (fun it => (it, (nth (ix it) p1 0 - off)%N)) its).
+      { rewrite Hp. rewrite <- Hread at 1. rewrite map_map.
+        clear. induction its as [|it t IH]; cbn [map combine]; [reflexivity|]. f_equal. exact IH. }
+      rewrite Hc. eapply perm_trans; [|apply Permutation_map, PL]. rewrite map_map.
+      erewrite map_ext_in; [apply Permutation_refl|].
+      intros x Hx. cbn [fst snd]. rewrite (Hget x Hx). reflexivity.
+  Qed.
+
   (* C03 main theorem, generic form: for every behaviour of the cut search
      (mid, dist, addc, within_tol, the variant flags are unconstrained) and
      every schedule *)
